@@ -21,8 +21,11 @@ sys.path.insert(0, os.path.join(VERIF, "tools"))
 import mutant_test  # noqa: E402
 
 
-def sh(cmd, cwd=None, env=None):
-    r = subprocess.run(cmd, shell=True, cwd=cwd, capture_output=True, text=True, env=env)
+def sh(cmd, cwd=None, env=None, timeout=600):
+    try:
+        r = subprocess.run(cmd, shell=True, cwd=cwd, capture_output=True, text=True, env=env, timeout=timeout)
+    except subprocess.TimeoutExpired:
+        return 124, "TIMEOUT after %ds: %s" % (timeout, cmd)
     return r.returncode, (r.stdout + r.stderr)
 
 
